@@ -60,6 +60,7 @@ type vWriteRun struct {
 	cur     *vSession
 	done    []*vSession
 	lastDir string
+	extTick, dropTick chan time.Time // hand-fired periodic ticks
 	gapMode bool            // base path pre-populated with run directories (with holes) of today
 	preDirs map[string]bool // directories that existed before the request being applied
 	hist    []string
@@ -108,6 +109,18 @@ func vNewWriteRun(c *vCase, variety bool) *vWriteRun {
 		return nil
 	}
 	w.f = &vFeed{ds: ds, nchan: w.nchan, period: period, signed: make([]bool, w.nchan), t0: time.Unix(vT0Unix, 0)}
+	// The periodic (1 s / 10 s) flush-and-report of the external-trigger and data-drop files never fires in
+	// histories that take milliseconds: replace the tickers by hand-fired ones, so that a tick can be pending
+	// when any block is handled.
+	if ds.writingState.externalTriggerTicker != nil {
+		ds.writingState.externalTriggerTicker.Stop()
+	}
+	if ds.writingState.dataDropTicker != nil {
+		ds.writingState.dataDropTicker.Stop()
+	}
+	w.extTick, w.dropTick = make(chan time.Time, 1), make(chan time.Time, 1)
+	ds.writingState.externalTriggerTicker = &time.Ticker{C: w.extTick}
+	ds.writingState.dataDropTicker = &time.Ticker{C: w.dropTick}
 	w.f.firstFrame = FrameIndex(vPick(r, 0, 12345, 1<<36))
 	for i := range w.f.signed {
 		w.f.signed[i] = variety && vChance(r, 0.3)
@@ -168,6 +181,17 @@ func vNewWriteRun(c *vCase, variety bool) *vWriteRun {
 // through ProcessSegments and books the records according to the model state.
 func (w *vWriteRun) pushBlock(ext []int64, dropped int) bool {
 	c, f := w.c, w.f
+	if vChance(c.R, 0.3) { // a periodic tick is pending when this block is handled
+		select {
+		case w.extTick <- time.Now():
+			c.Cov("periodic_ticks_fired", 1)
+		default:
+		}
+		select {
+		case w.dropTick <- time.Now():
+		default:
+		}
+	}
 	np := 1
 	if w.multi {
 		np = 1 + (w.blockNo*7+3)%3 // 1..3 records per channel in one block (one PublishData batch)
